@@ -31,9 +31,10 @@ import (
 func init() {
 	targets["PathHashProg"] = func() string {
 		fset, f := parseFile("src/fs/hash.go")
+		curFset := fset // the file set of the file the node being printed belongs to
 		show := func(n ast.Node) string {
 			var b bytes.Buffer
-			if err := printer.Fprint(&b, fset, n); err != nil {
+			if err := printer.Fprint(&b, curFset, n); err != nil {
 				failShape("cannot print node: %v", err)
 			}
 			// one line, single spaces; line breaks inside an argument list leave "( x" / "x )" behind
@@ -163,6 +164,18 @@ func init() {
 		// --- locate the three-way if
 		var top *ast.IfStmt
 		sawNew := false
+		xattrReadSeen, xattrNeedsRead, xattrNeedsEnabled, xattrReadPrefix := false, "false", "false", ""
+		storeSeen := false
+		var conjuncts func(e ast.Expr) []ast.Expr
+		conjuncts = func(e ast.Expr) []ast.Expr {
+			if pe, ok := e.(*ast.ParenExpr); ok {
+				return conjuncts(pe.X)
+			}
+			if be, ok := e.(*ast.BinaryExpr); ok && be.Op == token.LAND {
+				return append(conjuncts(be.X), conjuncts(be.Y)...)
+			}
+			return []ast.Expr{e}
+		}
 		for _, st := range fd.Body.List {
 			if as, ok := st.(*ast.AssignStmt); ok && show(as) == "h := hasher.new()" {
 				sawNew = true
@@ -176,9 +189,43 @@ func init() {
 				continue
 			}
 			if is, ok := st.(*ast.IfStmt); ok && strings.Contains(show(is.Cond), "hasher.useXattrs") && !usesH(is.Body) {
-				continue // xattr read / store: not part of the stream
+				// the xattr short-cut (follow-up 2): not part of the stream, but it decides WHETHER the stream is
+				// computed at all.  Its condition is translated conjunct by conjunct, its body is fixed.
+				if sawNew || xattrReadSeen {
+					failShape("xattr short-cut of PathHasher.hash is not the first statement: %s", show(is))
+				}
+				xattrReadSeen = true
+				if b := show(is.Body); b != "{ if b, err := xattr.LGet(path, hasher.xattrName); err == nil { return b, nil } }" || is.Else != nil || is.Init != nil {
+					failShape("xattr short-cut of PathHasher.hash changed shape: %s", show(is))
+				}
+				for _, cj := range conjuncts(is.Cond) {
+					switch cs := show(cj); {
+					case cs == "read":
+						xattrNeedsRead = "true"
+					case cs == "hasher.useXattrs":
+						xattrNeedsEnabled = "true"
+					default:
+						m := regexp.MustCompile(`^strings\.HasPrefix\(path, ("[^"\\]*")\)$`).FindStringSubmatch(cs)
+						if m == nil || xattrReadPrefix != "" {
+							failShape("xattr short-cut: unrecognised condition %s", cs)
+						}
+						xattrReadPrefix, _ = strconv.Unquote(m[1])
+						if xattrReadPrefix == "" {
+							failShape("xattr short-cut: empty prefix literal")
+						}
+					}
+				}
+				continue
 			}
 			if as, ok := st.(*ast.AssignStmt); ok && (show(as) == "info, err := os.Lstat(path)" || show(as) == "hash := h.Sum(nil)") {
+				continue
+			}
+			if is, ok := st.(*ast.IfStmt); ok && strings.Contains(show(is), "hasher.storeHash") {
+				// after the stream is complete: an error returns the partial digest, success may store the xattr
+				if show(is) != "if err != nil { return hash, err } else if store && hasher.useXattrs { hasher.storeHash(path, hash) }" {
+					failShape("tail of PathHasher.hash (error return / xattr store) changed shape: %s", show(is))
+				}
+				storeSeen = true
 				continue
 			}
 			if usesH(st) {
@@ -191,6 +238,18 @@ func init() {
 		if !sawNew || top == nil {
 			failShape("PathHasher.hash: `h := hasher.new()` or the symlink test not found")
 		}
+		if !xattrReadSeen || !storeSeen {
+			failShape("PathHasher.hash: the xattr short-cut or the xattr store was not found")
+		}
+		if last := show(fd.Body.List[len(fd.Body.List)-1]); last != "return hash, err" {
+			failShape("PathHasher.hash no longer ends with `return hash, err`: %s", last)
+		}
+		// storeHash: which paths may carry a stored hash
+		shm := regexp.MustCompile(`^\{ if !strings\.HasPrefix\(path, ("[^"\\]*")\) \{ return \} if err := xattr\.LSet\(path, hasher\.xattrName, hash\); err != nil && os\.IsPermission\(err\) \{`).FindStringSubmatch(show(findFunc(f, "PathHasher", "storeHash").Body))
+		if shm == nil {
+			failShape("PathHasher.storeHash changed shape: %s", show(findFunc(f, "PathHasher", "storeHash").Body))
+		}
+		xattrStorePrefix, _ := strconv.Unquote(shm[1])
 		if c := show(top.Cond); c != "err == nil && info.Mode()&os.ModeSymlink != 0" {
 			failShape("top-level symlink condition changed: %s", c)
 		}
@@ -286,24 +345,62 @@ func init() {
 		}
 		topFile := emitsBlock(fb, nil)
 
-		// --- fileHash copies the whole file into h
+		// --- fileHash copies the whole file into h; WHICH buffer the bytes pass through is translated (follow-up 2):
+		//   _, err = io.Copy(h, file)                                  a buffer private to the call       -> BufPrivate
+		//   for { n, err := file.Read(B); h.Write(B[:n]); ... }        B a local `B := make([]byte, ..)`  -> BufPrivate
+		//                                                              B a field `hasher.<name>`          -> BufShared
 		fh := findFunc(f, "PathHasher", "fileHash")
-		if !strings.Contains(show(fh.Body), "_, err = io.Copy(h, file)") || !strings.Contains(show(fh.Body), "file, err := os.Open(filename)") {
-			failShape("fileHash no longer copies the opened file into the hash")
+		fhText := show(fh.Body)
+		if !strings.HasPrefix(fhText, "{ file, err := os.Open(filename) if err != nil { return err } ") {
+			failShape("fileHash no longer opens the file first: %s", fhText)
 		}
-		n := 0
-		ast.Inspect(fh.Body, func(x ast.Node) bool {
-			if id, ok := x.(*ast.Ident); ok && id.Name == "h" {
-				n++
+		bufKind := ""
+		if fhText == "{ file, err := os.Open(filename) if err != nil { return err } _, err = io.Copy(h, file) file.Close() return err }" {
+			bufKind = "BufPrivate"
+		} else {
+			var loop *ast.ForStmt
+			locals := map[string]bool{}
+			for _, st := range fh.Body.List[2:] {
+				switch x := st.(type) {
+				case *ast.DeferStmt:
+					if show(x) != "defer file.Close()" {
+						failShape("fileHash: unrecognised defer %s", show(x))
+					}
+				case *ast.AssignStmt:
+					m := regexp.MustCompile(`^(\w+) := make\(\[\]byte, [^()]+\)$`).FindStringSubmatch(show(x))
+					if m == nil {
+						failShape("fileHash: unrecognised statement %s", show(x))
+					}
+					locals[m[1]] = true
+				case *ast.ForStmt:
+					if loop != nil || x.Init != nil || x.Cond != nil || x.Post != nil {
+						failShape("fileHash: unrecognised loop %s", show(x))
+					}
+					loop = x
+				default:
+					failShape("fileHash: unrecognised statement %s", show(st))
+				}
 			}
-			return true
-		})
-		if n != 1 {
-			failShape("fileHash uses the hash %d times, expected once", n)
+			if loop == nil {
+				failShape("fileHash neither calls io.Copy(h, file) nor loops over file.Read: %s", fhText)
+			}
+			m := regexp.MustCompile(`^\{ n, err := file\.Read\(([\w.]+)\) h\.Write\(([\w.]+)\[:n\]\) if err == io\.EOF \{ return nil \} else if err != nil \{ return err \} \}$`).FindStringSubmatch(show(loop.Body))
+			if m == nil || m[1] != m[2] {
+				failShape("fileHash: read loop changed shape: %s", show(loop.Body))
+			}
+			switch {
+			case locals[m[1]]:
+				bufKind = "BufPrivate"
+			case regexp.MustCompile(`^hasher\.\w+$`).MatchString(m[1]):
+				bufKind = "BufShared" // one buffer per PathHasher: every concurrent fileHash goes through it
+			default:
+				failShape("fileHash: cannot tell whose buffer %s is", m[1])
+			}
 		}
 
 		// --- walk options
-		_, wf := parseFile("src/fs/walk.go")
+		wfset, wf := parseFile("src/fs/walk.go")
+		curFset = wfset
 		wm := findFunc(wf, "", "WalkMode")
 		var opts *ast.CompositeLit
 		ast.Inspect(wm.Body, func(x ast.Node) bool {
@@ -343,6 +440,7 @@ func init() {
 			}
 		}
 
+		curFset = fset
 		// --- the memo (property C09, follow-up): Hash's cache lookup, MoveHash/CopyHash/SetHash, ensureRelative.
 		// The bodies are compared as a whole against the shape the memo model in Model/C09.v was written from;
 		// the parameters the model takes from here are the copy flags and the forgotten-path prefix.
@@ -354,7 +452,18 @@ func init() {
 		}
 		expect("ensureRelative", `{ if strings.HasPrefix(path, hasher.root) { return strings.TrimLeft(strings.TrimPrefix(path, hasher.root), "/") } return path }`)
 		expect("SetHash", `{ hasher.mutex.Lock() hasher.memo[path] = hash hasher.mutex.Unlock() hasher.storeHash(path, hash) }`)
-		expect("Hash", `{ path = hasher.ensureRelative(path) if !recalc { hasher.mutex.RLock() cached, present := hasher.memo[path] hasher.mutex.RUnlock() if present && cached != nil { return cached, nil } else if present { store = false recalc = true } } if !PathExists(path) { return nil, fmt.Errorf("cannot calculate hash for %s: %s", path, os.ErrNotExist) } hasher.mutex.Lock() if pending, present := hasher.wait[path]; present { hasher.mutex.Unlock() <-pending.Ch return pending.Hash, pending.Err } pending := &pendingHash{Ch: make(chan struct{})} hasher.wait[path] = pending hasher.mutex.Unlock() result, err := hasher.hash(path, store, !recalc, timestamp) hasher.mutex.Lock() if err == nil { hasher.memo[path] = result } delete(hasher.wait, path) hasher.mutex.Unlock() pending.Hash = result pending.Err = err close(pending.Ch) return result, err }`)
+		// Hash (follow-up 2): the statement that records the result is translated - guarded by `err == nil` or not
+		hashPre := `{ path = hasher.ensureRelative(path) if !recalc { hasher.mutex.RLock() cached, present := hasher.memo[path] hasher.mutex.RUnlock() if present && cached != nil { return cached, nil } else if present { store = false recalc = true } } if !PathExists(path) { return nil, fmt.Errorf("cannot calculate hash for %s: %s", path, os.ErrNotExist) } hasher.mutex.Lock() if pending, present := hasher.wait[path]; present { hasher.mutex.Unlock() <-pending.Ch return pending.Hash, pending.Err } pending := &pendingHash{Ch: make(chan struct{})} hasher.wait[path] = pending hasher.mutex.Unlock() result, err := hasher.hash(path, store, !recalc, timestamp) hasher.mutex.Lock() `
+		hashPost := ` delete(hasher.wait, path) hasher.mutex.Unlock() pending.Hash = result pending.Err = err close(pending.Ch) return result, err }`
+		memoGuarded := ""
+		switch body("Hash") {
+		case hashPre + "if err == nil { hasher.memo[path] = result }" + hashPost:
+			memoGuarded = "true"
+		case hashPre + "hasher.memo[path] = result" + hashPost:
+			memoGuarded = "false"
+		default:
+			failShape("PathHasher.Hash changed shape:\n  got  %s\n  want %s", body("Hash"), hashPre+"if err == nil { hasher.memo[path] = result }"+hashPost)
+		}
 		flagOf := func(name string) string {
 			m := regexp.MustCompile(`^\{ hasher\.moveOrCopyHash\(oldPath, newPath, (true|false)\) \}$`).FindStringSubmatch(body(name))
 			if m == nil {
@@ -401,6 +510,19 @@ func init() {
 			"   entry MoveHash forgets *)\n" +
 			"Definition copy_hash_copies : bool := " + copyFlag + ".\n" +
 			"Definition move_hash_copies : bool := " + moveFlag + ".\n" +
-			"Definition memo_forget_prefix : list N := " + bytesOf(tmpPrefix) + ". (* " + tmpPrefix + " *)\n"
+			"Definition memo_forget_prefix : list N := " + bytesOf(tmpPrefix) + ". (* " + tmpPrefix + " *)\n" +
+			"(* follow-up 2. Hash records the result of hash() in the memo: only when hash() returned no error? *)\n" +
+			"Definition memo_store_requires_success : bool := " + memoGuarded + ".\n" +
+			"(* the xattr short-cut at the top of hash(): the conjuncts of its condition (read = not recalculating,\n" +
+			"   hasher.useXattrs, strings.HasPrefix(path, prefix); no prefix test = the empty prefix), and the prefix\n" +
+			"   outside which storeHash refuses to write *)\n" +
+			"Definition xattr_read_needs_read : bool := " + xattrNeedsRead + ".\n" +
+			"Definition xattr_read_needs_enabled : bool := " + xattrNeedsEnabled + ".\n" +
+			"Definition xattr_read_prefix : list N := " + bytesOf(xattrReadPrefix) + ". (* " + xattrReadPrefix + " *)\n" +
+			"Definition xattr_store_prefix : list N := " + bytesOf(xattrStorePrefix) + ". (* " + xattrStorePrefix + " *)\n" +
+			"(* fileHash: the buffer the file's bytes pass through on their way into the hash - private to the call\n" +
+			"   (io.Copy, a local slice) or one buffer shared by every call on the same PathHasher *)\n" +
+			"Inductive buf_kind := BufPrivate | BufShared.\n" +
+			"Definition file_copy_buffer : buf_kind := " + bufKind + ".\n"
 	}
 }
